@@ -147,9 +147,17 @@ func c13Call(f func()) bool {
 		case <-time.After(wait):
 		}
 		if j.parked() {
-			// confirm: still parked a moment later
-			time.Sleep(200 * time.Microsecond)
-			if !j.finished() && j.parked() {
+			// generous hang detector: the only goroutine that could release the mutex is gone for good when the call is
+			// still parked in the same Lock() after three more looks spread over ~25 ms
+			hung := true
+			for _, d := range []time.Duration{200 * time.Microsecond, 5 * time.Millisecond, 20 * time.Millisecond} {
+				time.Sleep(d)
+				if j.finished() || !j.parked() {
+					hung = false
+					break
+				}
+			}
+			if hung {
 				return false
 			}
 		}
@@ -476,13 +484,13 @@ func c13Step[T number](r *c13Runner, m map[string]*c13Prov[T], bits int, t []str
 			return "deadlock", true
 		}
 		return "ok " + c13Obs(p) + " | " + c13Obs(q), true
-	case len(t) == 5 && t[0] == "abba" && c13IsOp(t[1]):
+	case len(t) == 5 && t[0] == "abba" && (t[1] == "and" || t[1] == "or"):
 		a, b := get(t[2]), get(t[3])
 		if a == nil {
 			return "", false
 		}
 		iters, err := strconv.Atoi(t[4])
-		if b == nil || a == b || err != nil || a.dead || b.dead {
+		if b == nil || a == b || err != nil || a.dead || b.dead || !a.wrapped || !b.wrapped {
 			return "bad-op", true
 		}
 		for i := 0; i < iters; i++ {
@@ -495,9 +503,19 @@ func c13Step[T number](r *c13Runner, m map[string]*c13Prov[T], bits int, t []str
 			close(start)
 			for !(j1.finished() && j2.finished()) {
 				time.Sleep(100 * time.Microsecond)
-				if !j1.finished() && !j2.finished() && j1.parked() && j2.parked() {
-					time.Sleep(500 * time.Microsecond)
-					if !j1.finished() && !j2.finished() && j1.parked() && j2.parked() {
+				bothParked := func() bool { return !j1.finished() && !j2.finished() && j1.parked() && j2.parked() }
+				if bothParked() {
+					// generous: both must stay parked in Mutex.Lock over three more looks (~25 ms); with two goroutines
+					// and nobody else touching the wrappers that is a cycle, not a hand-over
+					hung := true
+					for _, d := range []time.Duration{500 * time.Microsecond, 5 * time.Millisecond, 20 * time.Millisecond} {
+						time.Sleep(d)
+						if !bothParked() {
+							hung = false
+							break
+						}
+					}
+					if hung {
 						a.dead, b.dead = true, true
 						r.stats.Inc("deadlock.abba")
 						return "deadlock", true
@@ -511,7 +529,22 @@ func c13Step[T number](r *c13Runner, m map[string]*c13Prov[T], bits int, t []str
 				panic(j2.pan)
 			}
 		}
-		return "ok", true
+		r.stats.Inc("abba.returned")
+		return "ok " + c13Obs(a) + " | " + c13Obs(b), true
+	case len(t) == 5 && t[0] == "pairs":
+		x, o := get(t[1]), get(t[2])
+		if x == nil {
+			return "", false
+		}
+		lo, e1 := strconv.ParseUint(t[3], 10, 64)
+		n, e2 := strconv.ParseUint(t[4], 10, 32)
+		if o == nil || x == o || e1 != nil || e2 != nil || x.dead || o.dead || !x.wrapped || !o.wrapped {
+			return "bad-op", true
+		}
+		if bits == 32 && lo+2*n >= 1<<32 {
+			return "bad-op", true
+		}
+		return c13Pairs(r, x, o, lo, n), true
 	case len(t) >= 3 && t[0] == "conc":
 		p := get(t[1])
 		if p == nil {
@@ -520,6 +553,64 @@ func c13Step[T number](r *c13Runner, m map[string]*c13Prov[T], bits int, t []str
 		return c13Conc(r, m, p, bits, t[2:]), true
 	}
 	return "", false
+}
+
+// pairs <x> <o> <lo> <n>: a writer inserts the pairs (lo+2k, lo+2k+1) into wrapper o, each pair by ONE o.Add call (so
+// under o's lock a pair is in o completely or not at all), while a merger keeps calling x.Or(o) and inspects x after
+// every merge. A merge that leaves exactly one element of a pair in x read o while an Add was in progress (a torn
+// read: o was not read under its lock). No race detector needed.
+func c13Pairs[T number](r *c13Runner, x, o *c13Prov[T], lo, n uint64) string {
+	var done atomic.Bool
+	var wg sync.WaitGroup
+	torn := 0
+	var pan any
+	wg.Add(2)
+	go func() {
+		defer wg.Done()
+		defer done.Store(true)
+		defer func() {
+			if p := recover(); p != nil {
+				pan = p
+			}
+		}()
+		for k := uint64(0); k < n; k++ {
+			o.d.Add(T(lo+2*k), T(lo+2*k+1))
+		}
+	}()
+	go func() {
+		defer wg.Done()
+		defer func() {
+			if p := recover(); p != nil {
+				pan = p
+			}
+		}()
+		check := func() {
+			x.d.Or(cardinality.Provider[T](o.d))
+			vals := x.d.Slice() // ascending: the two elements of a pair are neighbours
+			for i := 0; i < len(vals); i++ {
+				u := uint64(vals[i])
+				if u < lo || u >= lo+2*n {
+					continue
+				}
+				if (u-lo)%2 == 0 && i+1 < len(vals) && uint64(vals[i+1]) == u+1 {
+					i++ // complete pair
+					continue
+				}
+				torn++
+				return
+			}
+		}
+		for !done.Load() {
+			check()
+		}
+		check()
+	}()
+	wg.Wait()
+	if pan != nil {
+		panic(pan)
+	}
+	r.stats.Inc("pairs.runs")
+	return fmt.Sprintf("ok torn=%d %s | %s", torn, c13Obs(x), c13Obs(o))
 }
 
 // conc <x> <thread ops…> / <thread ops…> / …   thread op: add:v,v | cadd:v | remove:v | or:name | xor:name | andnot:name | has:v | card | each
@@ -624,7 +715,7 @@ func (r *c13Runner) step(t []string) string {
 	case len(t) == 1 && t[0] == "reset":
 		r.m32, r.m64 = map[string]*c13Prov[uint32]{}, map[string]*c13Prov[uint64]{}
 		return "ok"
-	case len(t) == 2 && t[0] == "mode" && (t[1] == "fixed" || t[1] == "current"):
+	case len(t) == 2 && t[0] == "mode" && (t[1] == "fixed" || t[1] == "current" || t[1] == "snapshot" || t[1] == "nosnapshot"):
 		return "ok"
 	case len(t) == 3 && t[0] == "new":
 		if r.m32[t[1]] != nil || r.m64[t[1]] != nil {
@@ -787,12 +878,6 @@ func (g *c13Gen) randomCase(bits int, rk, ok string, big bool) {
 			a, b := "r", "o"
 			if r.Chance(1, 4) {
 				a, b = Pick(r, roles), Pick(r, roles)
-			}
-			if a == b && strings.HasPrefix(kind[a], "ts") {
-				b = "o"
-				if a == "o" {
-					b = "r"
-				}
 			}
 			op := Pick(r, c13Ops)
 			g.line("%s %s %s", op, name[a], name[b])
@@ -979,7 +1064,7 @@ func (c13Suite) genMain(g *c13Gen, tier string) {
 		}
 		g.randomCase(bits, rk, ok, i >= small)
 	}
-	// 4. wrapper self operand and ABBA (known findings): a few tiny cases
+	// 4. wrapper self operand and ABBA (F12: deadlocks before hooks/C13-fix2.patch; regression cases since): a few tiny cases
 	for _, bits := range []int{32, 64} {
 		for _, op := range c13Ops {
 			g.begin(fmt.Sprintf("self-wrapper %s ts%d", op, bits))
@@ -988,14 +1073,14 @@ func (c13Suite) genMain(g *c13Gen, tier string) {
 			g.line("%s x x", op)
 			g.line("card x")
 		}
-		// an empty receiver never calls back into the operand: And/AndNot on itself return
+		// (before the snapshot protocol only an empty receiver returned: it never called back into the operand)
 		g.begin(fmt.Sprintf("self-wrapper-empty ts%d", bits))
 		g.line("new x ts%d", bits)
 		g.line("and x x")
 		g.line("andnot x x")
 		g.line("add x 5")
 		g.line("slice x")
-		// blocked on a poisoned operand
+		// (before the snapshot protocol: blocked on an operand whose mutex is held forever)
 		g.begin(fmt.Sprintf("poisoned-operand ts%d", bits))
 		g.line("new x ts%d", bits)
 		g.line("new y b%d", bits)
@@ -1133,6 +1218,28 @@ func (c13Suite) genConc(g *c13Gen, tier string) {
 	if tier == "thorough" {
 		n = 400
 	}
+	// operand of a merge is written concurrently: the merge must read it under the operand's lock (paired-Add invariant)
+	np := 6
+	if tier == "thorough" {
+		np = 40
+	}
+	for i := 0; i < np; i++ {
+		bits := 32
+		if r.Bool() {
+			bits = 64
+		}
+		g.begin(fmt.Sprintf("pairs ts%d", bits))
+		g.line("new x ts%d", bits)
+		g.line("new o ts%d", bits)
+		base := uint64(r.Intn(3)) << 16
+		if bits == 64 && r.Bool() {
+			base += uint64(1+r.Intn(3)) << 32
+		}
+		g.line("add x %d %d", base+uint64(70000+r.Intn(100)), base+uint64(80000+r.Intn(100)))
+		g.line("add o %d", base+uint64(90000+r.Intn(100)))
+		g.line("pairs x o %d %d", base+uint64(2*r.Intn(50)), 8000+r.Intn(8000))
+		g.stats.Inc("pairs_cases")
+	}
 	for i := 0; i < n; i++ {
 		bits := 32
 		if r.Bool() {
@@ -1183,7 +1290,7 @@ func (c13Suite) genConc(g *c13Gen, tier string) {
 					toks = append(toks, "cadd:"+strconv.FormatUint(Pick(r, pool), 10))
 				case "diff":
 					if r.Chance(1, 3) {
-						toks = append(toks, "andnot:"+Pick(r, []string{"s1", "s3"})) // native path only: the AndNot fallback is F1
+						toks = append(toks, "andnot:"+operand)
 					} else {
 						toks = append(toks, "remove:"+strconv.FormatUint(Pick(r, pool), 10))
 					}
